@@ -103,9 +103,19 @@ type nmScen struct {
 
 // ----------------------------------------------------------------------------------- spelling
 
+// spelling used by GitHub's documentation where it is not all lower case (pattern "doc")
+var nmDocSpelling = map[string]string{
+	"startswith": "startsWith", "endswith": "endsWith", "tojson": "toJSON", "fromjson": "fromJSON", "hashfiles": "hashFiles",
+}
+
 func nmSpell(name, pat string) string {
 	switch pat {
 	case "lower":
+		return strings.ToLower(name)
+	case "doc":
+		if d, ok := nmDocSpelling[strings.ToLower(name)]; ok {
+			return d
+		}
 		return strings.ToLower(name)
 	case "UPPER":
 		return strings.ToUpper(name)
